@@ -77,6 +77,17 @@ CHECKS = {
         note='Histories for replay are sampled by seed from the exhaustive TLC dump (quick 110, thorough 1600). Results compared as report '
              'text without date/time lines.',
         tech='TLA+ spec (Client.tla) model-checked with TLC; TLC-generated histories replayed into the real client; TLC trace validation'),
+    'C10': dict(
+        cat='model_checking', ref='DESIGN.md section 5 C10',
+        text='Parser.tla evaluates the result parser\'s field lookup on real strings: TLC checks the collision matrix of every client field '
+             '(252) against every label seen in generated reports (no foreign label may match a field\'s pattern); synthetic one-field '
+             'reports with adversarial figures go through the real GeophiresXResult; reports of real runs over all writer branches '
+             '(lifetimes 2..99, up to 14 construction years, overflowing widths, carbon / add-on / S-DAC-GT blocks, examples) are parsed by the '
+             'real client in sub-processes under three hash seeds and compared with an independent lexical tokenisation by TraceParser.tla: '
+             'every field against the exact-label line of its own section, unambiguity of the lookup, every cell and the row count of every '
+             'profile table, header arity, CSV export, JSON side file (rounded to the displayed precision), identical structure across seeds.',
+        note='Independent tokeniser (harness/report.py) is part of the trusted base. Unit-less "Number..." fields carry the client\'s unit "count".',
+        tech='TLA+ string-level parser spec (Parser.tla, collision matrix) checked with TLC; TLC trace validation of real reports vs the real client (TraceParser.tla)'),
     'C11': dict(
         cat='model_checking', ref='DESIGN.md section 5 C11',
         text='The scaling algebra is model-checked on Levelized.tla (Homogeneous: every levelized cost is degree-1 homogeneous in all cost terms; '
